@@ -52,7 +52,7 @@ func (c18) Info() core.Info {
 			"after an injected reader error the sink log may be any prefix covering at least the packets fully delivered before the failing Read; it must never contain a misaligned, duplicated or reordered packet",
 			"a sink that returns a short count without error is outside the statement: only integrity and order of what is delivered are checked after it",
 		},
-		RequiredProbes: []string{"frag_unaligned", "one_byte", "data_with_eof", "partial_tail", "sink_err_first", "sink_err_mid", "reader_err_mid_packet", "via_io_copy", "write_not_multiple", "write_multi_packet", "closer", "adapter_reused", "adapter_reused_after_partial_tail", "reader_is_writerto", "sink_err_full_count"},
+		RequiredProbes: []string{"frag_unaligned", "one_byte", "data_with_eof", "partial_tail", "sink_err_first", "sink_err_mid", "reader_err_mid_packet", "via_io_copy", "write_not_multiple", "write_multi_packet", "closer", "adapter_reused", "adapter_reused_after_partial_tail", "reader_is_writerto", "sink_err_full_count", "reader_fails_with_unexpected_eof", "sink_fails_with_eof_value", "more_than_4gib_in_one_call"},
 	}
 }
 
@@ -99,6 +99,7 @@ func (c18) Gen(r *core.Rand, tier string) interface{} {
 		if s.Packets > 0 {
 			s.Sink.FailAt = r.Pick(0, 0, r.Intn(s.Packets), s.Packets-1)
 			s.Sink.Kind = r.PickS("err", "err", "errfull")
+			s.Sink.As = r.PickS("", "", "", "eof", "ueof")
 			if r.Chance(1, 5) {
 				s.Sink.Kind = "short"
 				s.Sink.ShortN = r.Pick(0, 1, 100, 187)
@@ -160,6 +161,13 @@ func (c18) Gen(r *core.Rand, tier string) interface{} {
 	if faultSrc == 2 || faultSrc == 3 {
 		s.Reads = parties.GenReadOps(r, r.Range(0, n), r.PickS("full", "frag", "mixed"), true)
 		s.Sink.FailAt = -1
+		if r.Chance(1, 3) {
+			for i := range s.Reads {
+				if s.Reads[i].Kind == "err" || s.Reads[i].Kind == "hard_err" {
+					s.Reads[i].As = "ueof" // the reader's OWN error happens to be io.ErrUnexpectedEOF
+				}
+			}
+		}
 	}
 	return s
 }
@@ -168,9 +176,13 @@ func (c18) Gen(r *core.Rand, tier string) interface{} {
 const c18Comp3 = 375 * 374 / 2 // two distinct cut points
 const c18Sweep = 2 * (1 + 375 + c18Comp3)
 
-func (c18) SweepSize(tier string) int { return c18Sweep }
+// one more case after the compositions: a single ReadFrom that delivers more than 4 GiB
+func (c18) SweepSize(tier string) int { return c18Sweep + 1 }
 
 func (c18) SweepCase(tier string, i int) interface{} {
+	if i == c18Sweep {
+		return &C18Script{Mode: "huge", Adapter: "Func", Packets: 22845571 + 3, Sink: parties.SinkPlan{FailAt: -1}}
+	}
 	eof := i % 2
 	i /= 2
 	s := &C18Script{Mode: "readfrom", Adapter: "IOWriter", Packets: 2, Salt: 7}
@@ -203,8 +215,49 @@ func (c18) Size(script interface{}) int {
 	return s.Packets*4 + len(s.Cuts) + len(s.Reads) + s.Tail/16
 }
 
+// c18Huge: one ReadFrom over a generated stream of more than 4 GiB (no storage): the
+// returned count is an int64 and must not wrap.
+type c18Gen struct {
+	left int64
+	pkt  [188]byte
+	off  int
+}
+
+func (g *c18Gen) Read(p []byte) (int, error) {
+	if g.left <= 0 {
+		return 0, io.EOF
+	}
+	k := copy(p, g.pkt[g.off:])
+	g.off = (g.off + k) % 188
+	g.left -= int64(k)
+	return k, nil
+}
+
+func c18Huge(s *C18Script, c *core.Ctx) {
+	c.Probe("more_than_4gib_in_one_call")
+	total := int64(s.Packets) * 188
+	g := &c18Gen{left: total}
+	g.pkt[0], g.pkt[3] = 0x47, 0x10
+	delivered := int64(0)
+	w := packet.IOWriter(packet.PacketWriterFunc(func(p *packet.Packet) (int, error) { delivered++; return 188, nil }))
+	var n int64
+	var err error
+	if !c.Call("packetWriter.ReadFrom(>4GiB)", func() { n, err = w.(io.ReaderFrom).ReadFrom(g) }) {
+		return
+	}
+	c.Log("huge n=%d err=%v delivered=%d", n, err, delivered)
+	c.Unit("packets_offered", int64(s.Packets))
+	if err != nil || delivered != int64(s.Packets) || n != total {
+		c.Fail("bytes_delivered", "count_wrong_beyond_4gib", []interface{}{n, err, delivered}, []interface{}{total, nil, s.Packets})
+	}
+}
+
 func (c18) Exec(script interface{}, c *core.Ctx) {
 	s := script.(*C18Script)
+	if s.Mode == "huge" {
+		c18Huge(s, c)
+		return
+	}
 	src, data := c18Data(s)
 	orig := append([]byte(nil), data...)
 	sink := parties.NewSimSink(s.Sink, c)
@@ -401,6 +454,9 @@ func (c18) Exec(script interface{}, c *core.Ctx) {
 		sinkFailed := s.Sink.FailAt >= 0 && s.Sink.Kind != "short" && sink.Calls > s.Sink.FailAt
 		switch {
 		case sinkFailed:
+			if s.Sink.As != "" {
+				c.Probe("sink_fails_with_eof_value")
+			}
 			if s.Sink.FailAt == 0 {
 				c.Probe("sink_err_first")
 			} else {
@@ -439,6 +495,12 @@ func (c18) Exec(script interface{}, c *core.Ctx) {
 			var inj *parties.InjectedErr
 			if errors.As(err, &inj) {
 				return
+			}
+			if sr.FirstErr == io.ErrUnexpectedEOF {
+				c.Probe("reader_fails_with_unexpected_eof")
+				if err == io.ErrUnexpectedEOF {
+					return
+				}
 			}
 			// the only legitimate way not to see the error: it arrived together with the
 			// last byte of a packet and was transient (io.ReadFull semantics drop it)
